@@ -17,7 +17,7 @@ import (
 
 // runShutdown stops a running advertiser at instant tc while transmissions are pending or in
 // flight (scripted latencies), and records the ordered event log of the connection.
-func runShutdown(t *testing.T, out *vfh.Out, terminate bool, evs []advEvent, tc time.Duration, lat []time.Duration, failIdx int) {
+func runShutdown(t *testing.T, out *vfh.Out, terminate bool, evs []advEvent, tc time.Duration, lat []time.Duration, failIdx int, atStop int) {
 	synctest.Test(t, func(t *testing.T) {
 		min, max := 200*time.Second, 600*time.Second
 		v := newVfAdv(vfAdvConfig(min, max, false, 1800*time.Second), terminate, nil)
@@ -47,7 +47,7 @@ func runShutdown(t *testing.T, out *vfh.Out, terminate bool, evs []advEvent, tc 
 		}()
 		synctest.Wait()
 
-		c := new(vfh.Toks).S("shut").B(terminate).I(int64(tc)).N(failIdx).N(len(lat))
+		c := new(vfh.Toks).S("shut").B(terminate).I(int64(tc)).N(failIdx).N(atStop).N(len(lat))
 		for _, l := range lat {
 			c.I(int64(l))
 		}
@@ -83,6 +83,14 @@ func runShutdown(t *testing.T, out *vfh.Out, terminate bool, evs []advEvent, tc 
 		}
 		if d := tc - time.Since(start); d > 0 {
 			time.Sleep(d)
+		}
+		if atStop > 0 {
+			// solicitations handed to the listener at the very stop instant: the cancellation
+			// follows without letting the scheduler settle, so it may find the context cancelled
+			// in the middle of a loop iteration
+			for k := 0; k < atStop; k++ {
+				v.conn.deliver(vfRead{m: advMessage(advEvent{kind: 0, host: 1 + k%4}), hop: 255, host: vfHosts[1+k%4].WithZone("vf0")})
+			}
 		}
 		v.conn.mark('C')
 		cancel()
@@ -151,15 +159,22 @@ func verifC08(t *testing.T, r *vfh.Rand, out *vfh.Out) {
 			}
 		}
 		fail := -1
-		runShutdown(t, out, r.Chance(2, 3), evs, tc, lat, fail)
+		atStop := 0
+		if r.Chance(1, 3) {
+			atStop = 1 + r.Intn(3)
+		}
+		runShutdown(t, out, r.Chance(2, 3), evs, tc, lat, fail, atStop)
 	}
 	// idle stop, terminate and reload
 	for _, term := range []bool{true, false} {
-		runShutdown(t, out, term, nil, 10*time.Second+1, []time.Duration{0, 0, 5 * time.Millisecond}, -1)
+		runShutdown(t, out, term, nil, 10*time.Second+1, []time.Duration{0, 0, 5 * time.Millisecond}, -1, 0)
 		// the first periodic RA (due at 3 s) still in flight at the stop instant
-		runShutdown(t, out, term, nil, 3500*time.Millisecond+1, []time.Duration{0, 2 * time.Second, 10 * time.Millisecond}, -1)
+		runShutdown(t, out, term, nil, 3500*time.Millisecond+1, []time.Duration{0, 2 * time.Second, 10 * time.Millisecond}, -1, 0)
+		for k := 1; k <= 3; k++ {
+			runShutdown(t, out, term, nil, 3500*time.Millisecond+1, []time.Duration{0, 2 * time.Second, 10 * time.Millisecond}, -1, k)
+		}
 		// …and failing while in flight
-		runShutdown(t, out, term, nil, 3500*time.Millisecond+1, []time.Duration{0, 2 * time.Second, 10 * time.Millisecond}, 1)
+		runShutdown(t, out, term, nil, 3500*time.Millisecond+1, []time.Duration{0, 2 * time.Second, 10 * time.Millisecond}, 1, 0)
 	}
 }
 
